@@ -17,20 +17,24 @@ Local Arguments Z.leb : simpl never.
 Local Arguments str_eqb : simpl never.
 
 (* the state of the block loop on the line s that begins len(pre) characters into  pre s LF *)
-Definition off_line (st : bstate) (pre s : str) (bs lv : Z) : Prop :=
-  b_src st = pre ++ s ++ [10]
-  /\ b_bMarks st = [len pre; len pre + len s + 1] /\ b_eMarks st = [len pre + len s; len pre + len s + 1]
-  /\ b_tShift st = [0; 0] /\ b_sCount st = [0; 0] /\ b_bsCount st = [bs; 0]
-  /\ b_blkIndent st = 0 /\ b_lineMax st = 1 /\ b_listIndent st = -1 /\ b_level st = lv.
+(* pre1: what the containers have moved bMarks past; pre2: what they have masked through tShift (a list marker
+   and its blanks, tab-free), counted in sCount and blkIndent *)
+Definition off_line (st : bstate) (pre1 pre2 s : str) (bs li lv : Z) : Prop :=
+  b_src st = pre1 ++ pre2 ++ s ++ [10]
+  /\ b_bMarks st = [len pre1; len pre1 + len pre2 + len s + 1] /\ b_eMarks st = [len pre1 + len pre2 + len s; len pre1 + len pre2 + len s + 1]
+  /\ b_tShift st = [len pre2; 0] /\ b_sCount st = [len pre2; 0] /\ b_bsCount st = [bs; 0]
+  /\ b_blkIndent st = len pre2 /\ b_lineMax st = 1 /\ b_listIndent st = li /\ b_level st = lv.
 
 Section OffLine.
 Context (cfg : bcfg) (rf cf : str -> str).
-Context (pre s : str) (bs lv : Z) (Hs : line_ok s).
+Context (pre1 pre2 s : str) (bs li lv : Z) (Hs : line_ok s).
+Context (Hp2 : forall x, In x pre2 -> x <> 9).
+Notation off := (len pre1 + len pre2).
 
 Definition same_off (st st' : bstate) : Prop :=
-  off_line st' pre s bs lv /\ b_tokens st' = b_tokens st /\ b_env st' = b_env st /\ b_line st' = b_line st /\ b_tight st' = b_tight st.
+  off_line st' pre1 pre2 s bs li lv /\ b_tokens st' = b_tokens st /\ b_env st' = b_env st /\ b_line st' = b_line st /\ b_tight st' = b_tight st.
 
-Lemma same_off_refl st : off_line st pre s bs lv -> same_off st st.
+Lemma same_off_refl st : off_line st pre1 pre2 s bs li lv -> same_off st st.
 Proof. intros H. repeat split; try reflexivity; apply H. Qed.
 
 Ltac ol H := destruct H as (?Hsrc & ?HbM & ?HeM & ?HtS & ?HsC & ?HbS & ?HbI & ?HlM & ?HlI & ?Hlv).
@@ -41,36 +45,37 @@ Proof.
   rewrite E, len_cons. pose proof (len_nonneg body). lia.
 Qed.
 
-Lemma src_head st : off_line st pre s bs lv ->
-  exists c0, letter c0 /\ char_at (b_src st) (len pre) = Some c0 /\ py_idx (b_src st) (len pre) = Ok c0.
+Lemma src_head st : off_line st pre1 pre2 s bs li lv ->
+  exists c0, letter c0 /\ char_at (b_src st) off = Some c0 /\ py_idx (b_src st) off = Ok c0.
 Proof.
   intros H. ol H. destruct head_facts as (c0 & body & E & L & _). exists c0. rewrite Hsrc, E. split; [exact L|].
-  pose proof (len_nonneg pre). cbn [app].
-  assert (C : char_at (pre ++ c0 :: body ++ [10]) (len pre) = Some c0).
-  { unfold char_at, get. assert (B : (len pre <? 0) = false) by lia. cbv zeta. rewrite !B. unfold len. rewrite Nat2Z.id.
+  pose proof (len_nonneg pre1). pose proof (len_nonneg pre2). cbn [app].
+  rewrite app_assoc. rewrite <- len_app.
+  assert (C : char_at ((pre1 ++ pre2) ++ c0 :: body ++ [10]) (len (pre1 ++ pre2)) = Some c0).
+  { unfold char_at, get. pose proof (len_nonneg (pre1 ++ pre2)). assert (B : (len (pre1 ++ pre2) <? 0) = false) by lia. cbv zeta. rewrite !B. unfold len. rewrite Nat2Z.id.
     apply nth_error_app_mid. }
   split; [exact C | apply py_idx_app].
 Qed.
 
-Lemma ls0 st : off_line st pre s bs lv -> line_start st 0 = Ok (len pre).
-Proof. intros H. ol H. unfold line_start. rewrite HbM, HtS. cbn [tb bind]. change (tb [len pre; len pre + len s + 1] 0) with (Ok (len pre) : res Z). cbn [bind]. change (tb [0; 0] 0) with (Ok 0 : res Z). cbn [bind]. f_equal. lia. Qed.
-Lemma em0 st : off_line st pre s bs lv -> tb (b_eMarks st) 0 = Ok (len pre + len s).
+Lemma ls0 st : off_line st pre1 pre2 s bs li lv -> line_start st 0 = Ok off.
+Proof. intros H. ol H. unfold line_start. rewrite HbM, HtS. reflexivity. Qed.
+Lemma em0 st : off_line st pre1 pre2 s bs li lv -> tb (b_eMarks st) 0 = Ok (off + len s).
 Proof. intros H. ol H. rewrite HeM. reflexivity. Qed.
-Lemma sc0 st : off_line st pre s bs lv -> tb (b_sCount st) 0 = Ok 0.
+Lemma sc0 st : off_line st pre1 pre2 s bs li lv -> tb (b_sCount st) 0 = Ok (len pre2).
 Proof. intros H. ol H. rewrite HsC. reflexivity. Qed.
-Lemma cb0 st : off_line st pre s bs lv -> code_block_at cfg st 0 = Ok false.
+Lemma cb0 st : off_line st pre1 pre2 s bs li lv -> code_block_at cfg st 0 = Ok false.
 Proof.
   intros H. unfold code_block_at, is_code_block. rewrite (sc0 st H). cbn [bind]. ol H. rewrite HbI.
-  change (4 <=? 0 - 0) with false. rewrite Bool.andb_false_r. reflexivity.
+  rewrite Z.sub_diag. change (4 <=? 0) with false. rewrite Bool.andb_false_r. reflexivity.
 Qed.
 
-Lemma r_table_fail term st : off_line st pre s bs lv -> r_table cfg term st 0 1 false = Ok (false, st).
+Lemma r_table_fail term st : off_line st pre1 pre2 s bs li lv -> r_table cfg term st 0 1 false = Ok (false, st).
 Proof. intros _. unfold r_table. change (1 <? 0 + 2) with true. reflexivity. Qed.
 
-Lemma r_code_fail st : off_line st pre s bs lv -> r_code cfg st 0 1 false = Ok (false, st).
+Lemma r_code_fail st : off_line st pre1 pre2 s bs li lv -> r_code cfg st 0 1 false = Ok (false, st).
 Proof. intros H. unfold r_code. rewrite (cb0 st H). reflexivity. Qed.
 
-Lemma r_fence_fail st : off_line st pre s bs lv -> r_fence cfg st 0 1 false = Ok (false, st).
+Lemma r_fence_fail st : off_line st pre1 pre2 s bs li lv -> r_fence cfg st 0 1 false = Ok (false, st).
 Proof.
   intros H. unfold r_fence. rewrite (ls0 st H), (em0 st H), (cb0 st H). cbn [bind]. cbv iota.
   match goal with |- (if ?c then _ else _) = _ => destruct c end; [reflexivity|].
@@ -78,48 +83,48 @@ Proof.
   assert (E : negb ((c0 =? 126) || (c0 =? 96)) = true) by (unfold letter in L; lia). rewrite E. reflexivity.
 Qed.
 
-Lemma r_blockquote_fail rec term st : off_line st pre s bs lv -> r_blockquote cfg rec term st 0 1 false = Ok (false, st).
+Lemma r_blockquote_fail rec term st : off_line st pre1 pre2 s bs li lv -> r_blockquote cfg rec term st 0 1 false = Ok (false, st).
 Proof.
   intros H. unfold r_blockquote. rewrite (ls0 st H), (em0 st H), (cb0 st H). cbn [bind]. cbv iota.
   rewrite match_some_62. destruct (src_head st H) as (c0 & L & C & _). rewrite C.
   assert (E : (c0 =? 62) = false) by (unfold letter in L; lia). rewrite E. reflexivity.
 Qed.
 
-Lemma r_hr_fail st : off_line st pre s bs lv -> r_hr cfg st 0 1 false = Ok (false, st).
+Lemma r_hr_fail st : off_line st pre1 pre2 s bs li lv -> r_hr cfg st 0 1 false = Ok (false, st).
 Proof.
   intros H. unfold r_hr. rewrite (ls0 st H), (em0 st H), (cb0 st H). cbn [bind]. cbv iota.
   destruct (src_head st H) as (c0 & L & C & _). rewrite C.
   assert (E : negb ((c0 =? 42) || (c0 =? 45) || (c0 =? 95)) = true) by (unfold letter in L; lia). rewrite E. reflexivity.
 Qed.
 
-Lemma r_heading_fail st : off_line st pre s bs lv -> r_heading cfg st 0 1 false = Ok (false, st).
+Lemma r_heading_fail st : off_line st pre1 pre2 s bs li lv -> r_heading cfg st 0 1 false = Ok (false, st).
 Proof.
   intros H. unfold r_heading. rewrite (ls0 st H), (em0 st H), (cb0 st H). cbn [bind]. cbv iota.
-  destruct head_facts as (_ & _ & _ & _ & Hl). assert (E0 : (len pre + len s <=? len pre) = false) by lia. rewrite E0.
+  destruct head_facts as (_ & _ & _ & _ & Hl). assert (E0 : (off + len s <=? off) = false) by lia. rewrite E0.
   destruct (src_head st H) as (c0 & L & _ & P). rewrite P. cbn [bind].
   assert (E : negb (c0 =? 35) = true) by (unfold letter in L; lia). rewrite E. reflexivity.
 Qed.
 
-Lemma r_html_block_fail st : off_line st pre s bs lv -> r_html_block cfg st 0 1 false = Ok (false, st).
+Lemma r_html_block_fail st : off_line st pre1 pre2 s bs li lv -> r_html_block cfg st 0 1 false = Ok (false, st).
 Proof.
   intros H. unfold r_html_block. rewrite (ls0 st H), (em0 st H), (cb0 st H). cbn [bind]. cbv iota.
   destruct (negb (c_html cfg)); [reflexivity|].
-  destruct head_facts as (_ & _ & _ & _ & Hl). assert (E0 : (len pre + len s <=? len pre) = false) by lia. rewrite E0.
+  destruct head_facts as (_ & _ & _ & _ & Hl). assert (E0 : (off + len s <=? off) = false) by lia. rewrite E0.
   destruct (src_head st H) as (c0 & L & _ & P). rewrite P. cbn [bind].
   assert (E : negb (c0 =? 60) = true) by (unfold letter in L; lia). rewrite E. reflexivity.
 Qed.
 
-Lemma r_reference_fail term st : off_line st pre s bs lv -> r_reference cfg rf cf term st 0 1 false = Ok (false, st).
+Lemma r_reference_fail term st : off_line st pre1 pre2 s bs li lv -> r_reference cfg rf cf term st 0 1 false = Ok (false, st).
 Proof.
   intros H. unfold r_reference. rewrite (ls0 st H), (em0 st H), (cb0 st H). cbn [bind]. cbv iota.
   destruct (src_head st H) as (c0 & L & _ & P). rewrite P. cbn [bind].
   assert (E : negb (c0 =? 91) = true) by (unfold letter in L; lia). rewrite E. reflexivity.
 Qed.
 
-Lemma r_list_fail rec term st : off_line st pre s bs lv -> r_list cfg rec term st 0 1 false = Ok (false, st).
+Lemma r_list_fail rec term st : off_line st pre1 pre2 s bs li lv -> r_list cfg rec term st 0 1 false = Ok (false, st).
 Proof.
   intros H. unfold r_list. rewrite (cb0 st H), (sc0 st H). cbn [bind]. cbv iota.
-  pose proof H as H'. ol H'. rewrite HlI. change (0 <=? -1) with false. cbn [andb]. cbv iota.
+  pose proof H as H'. ol H'. rewrite HbI, Z.ltb_irrefl, Bool.andb_false_r. cbv iota.
   destruct (src_head st H) as (c0 & L & C & P).
   assert (SO : skip_ordered st 0 = Ok (-1)).
   { unfold skip_ordered. rewrite (ls0 st H), (em0 st H). cbn [bind].
@@ -132,13 +137,13 @@ Proof.
   rewrite SB. cbn [bind]. change (0 <=? -1) with false. cbv iota. reflexivity.
 Qed.
 
-Lemma empty0 st : off_line st pre s bs lv -> is_empty st 0 = Ok false.
+Lemma empty0 st : off_line st pre1 pre2 s bs li lv -> is_empty st 0 = Ok false.
 Proof.
   intros H. unfold is_empty. rewrite (ls0 st H), (em0 st H). cbn [bind].
-  destruct head_facts as (_ & _ & _ & _ & Hl). assert (E : (len pre + len s <=? len pre) = false) by lia. rewrite E. reflexivity.
+  destruct head_facts as (_ & _ & _ & _ & Hl). assert (E : (off + len s <=? off) = false) by lia. rewrite E. reflexivity.
 Qed.
 
-Lemma r_lheading_fail term st : off_line st pre s bs lv ->
+Lemma r_lheading_fail term st : off_line st pre1 pre2 s bs li lv ->
   exists st', r_lheading cfg term st 0 1 false = Ok (false, st') /\ same_off st st'.
 Proof.
   intros H. unfold r_lheading. rewrite (cb0 st H). cbn [bind]. cbv iota.
@@ -146,24 +151,58 @@ Proof.
   eexists. split; [reflexivity|]. unfold same_off, off_line, st_parent. cbn. repeat split; try reflexivity; apply H.
 Qed.
 
-(* getLines of the single line: the characters from the offset to the end mark *)
-Lemma get_lines0 st : off_line st pre s bs lv -> get_lines st 0 1 0 false = Ok s.
+(* getLines of the single line: the masked marker characters are skipped column by column, then the characters
+   from the offset to the end mark are copied *)
+Lemma gl_mask src lineStart indent ts bsv last : forall p2 A rest k fuel,
+  src = A ++ p2 ++ rest -> (forall x, In x p2 -> x <> 9) ->
+  len A - lineStart + len p2 <= ts -> k + len p2 <= indent -> len A + len p2 <= last -> (length p2 <= fuel)%nat ->
+  gl_scan fuel src (len A) last lineStart k indent ts bsv
+  = gl_scan (fuel - length p2) src (len A + len p2) last lineStart (k + len p2) indent ts bsv.
+Proof.
+  induction p2 as [|c p2 IH]; intros A rest k fuel E NT HT HK HL HF.
+  - cbn [length]. rewrite Nat.sub_0_r. change (len (@nil Z)) with 0. rewrite !Z.add_0_r. reflexivity.
+  - destruct fuel as [|f]; [cbn [length] in HF; lia|]. cbn [gl_scan].
+    rewrite len_cons in *. pose proof (len_nonneg p2).
+    assert (C1 : ((len A <? last) && (k <? indent)) = true) by lia. rewrite C1.
+    assert (PI : py_idx src (len A) = Ok c) by (rewrite E; cbn [app]; apply py_idx_app). rewrite PI. cbn [bind].
+    assert (N9 : (c =? 9) = false) by (pose proof (NT c (or_introl eq_refl)); lia). rewrite N9.
+    assert (M : (len A - lineStart <? ts) = true) by lia. rewrite M.
+    assert (SAME : (if is_space c then gl_scan f src (len A + 1) last lineStart (k + 1) indent ts bsv
+                    else gl_scan f src (len A + 1) last lineStart (k + 1) indent ts bsv)
+                   = gl_scan f src (len A + 1) last lineStart (k + 1) indent ts bsv) by (destruct (is_space c); reflexivity).
+    rewrite SAME.
+    replace (len A + 1) with (len (A ++ [c])) by (rewrite len_app; reflexivity).
+    rewrite (IH (A ++ [c]) rest (k + 1) f).
+    + cbn [length Nat.sub]. rewrite len_app. change (len [c]) with 1. f_equal; lia.
+    + rewrite E, <- app_assoc. reflexivity.
+    + intros x I. apply NT. right. exact I.
+    + rewrite len_app. change (len [c]) with 1. lia.
+    + lia.
+    + rewrite len_app. change (len [c]) with 1. lia.
+    + cbn [length] in HF. lia.
+Qed.
+
+Lemma get_lines0 st : off_line st pre1 pre2 s bs li lv -> get_lines st 0 1 (len pre2) false = Ok s.
 Proof.
   intros H. ol H. unfold get_lines. change (1 <=? 0) with false. cbv iota.
   change (Z.to_nat (1 - 0)) with 1%nat. cbn [get_lines_loop]. change (negb (0 <? 1)) with false. cbv iota.
   rewrite HbM, HeM, HtS, HbS. cbn [tb bind].
-  change (tb [len pre; len pre + len s + 1] 0) with (Ok (len pre) : res Z).
-  change (tb [len pre + len s; len pre + len s + 1] 0) with (Ok (len pre + len s) : res Z).
-  change (tb [0; 0] 0) with (Ok 0 : res Z). change (tb [bs; 0] 0) with (Ok bs : res Z). cbn [bind].
+  change (tb [len pre1; off + len s + 1] 0) with (Ok (len pre1) : res Z).
+  change (tb [off + len s; off + len s + 1] 0) with (Ok (off + len s) : res Z).
+  change (tb [len pre2; 0] 0) with (Ok (len pre2) : res Z). change (tb [bs; 0] 0) with (Ok bs : res Z). cbn [bind].
   change (0 + 1 <? 1) with false. cbn [orb]. cbv iota.
-  cbn [gl_scan]. change (0 <? 0) with false. rewrite Bool.andb_false_r. cbn [bind]. change (0 <? 0) with false. cbv iota.
+  pose proof (len_nonneg pre1). pose proof (len_nonneg pre2). pose proof (len_nonneg s).
+  rewrite (gl_mask (b_src st) (len pre1) (len pre2) (len pre2) bs (off + len s) pre2 pre1 (s ++ [10]) 0 (S (length (b_src st)))); try lia; try assumption.
+  2:{ rewrite Hsrc, !app_length. lia. }
+  replace (S (length (b_src st)) - length pre2)%nat with (S (length (b_src st) - length pre2)) by (rewrite Hsrc, !app_length; lia).
+  cbn [gl_scan]. rewrite Z.add_0_l, Z.ltb_irrefl, Bool.andb_false_r. cbn [bind]. rewrite Z.ltb_irrefl.
   cbn [get_lines_loop]. cbn [negb]. cbv iota. cbn [bind app].
-  rewrite ?app_nil_r, Hsrc. rewrite (slice_app_mid pre s [10]). reflexivity.
+  rewrite ?app_nil_r, Hsrc. rewrite app_assoc. rewrite <- len_app. rewrite (slice_app_mid (pre1 ++ pre2) s [10]). reflexivity.
 Qed.
 
-Lemma r_paragraph_line term st : off_line st pre s bs lv ->
+Lemma r_paragraph_line term st : off_line st pre1 pre2 s bs li lv ->
   exists st', r_paragraph term st 0 1 false = Ok (true, st')
-    /\ off_line st' pre s bs lv /\ b_tokens st' = b_tokens st ++ para_tokens s lv /\ b_env st' = b_env st /\ b_line st' = 1.
+    /\ off_line st' pre1 pre2 s bs li lv /\ b_tokens st' = b_tokens st ++ para_tokens s lv /\ b_env st' = b_env st /\ b_line st' = 1.
 Proof.
   intros H. unfold r_paragraph. pose proof H as H'. ol H'. rewrite HlM.
   change (Z.to_nat (1 - 0)) with 1%nat. change (0 + 1) with 1. rewrite para_scan_stop. cbn [bind].
@@ -185,7 +224,7 @@ Context (HR : c_rules cfg = rpre ++ nm_paragraph :: rpost).
 Context (Hpre : Forall (fun n => str_eqb n nm_paragraph = false) rpre).
 Context (Hnest : lv < c_maxNesting cfg).
 
-Lemma apply_rule_fail rec term n st : str_eqb n nm_paragraph = false -> off_line st pre s bs lv ->
+Lemma apply_rule_fail rec term n st : str_eqb n nm_paragraph = false -> off_line st pre1 pre2 s bs li lv ->
   exists st', apply_rule cfg rf cf rec term n st 0 1 false = Ok (false, st') /\ same_off st st'.
 Proof.
   intros Hn H. unfold apply_rule.
@@ -202,9 +241,9 @@ Proof.
   rewrite Hn. exists st. split; [reflexivity | apply same_off_refl, H].
 Qed.
 
-Lemma try_rules_line rec : forall l st, Forall (fun n => str_eqb n nm_paragraph = false) l -> off_line st pre s bs lv ->
+Lemma try_rules_line rec : forall l st, Forall (fun n => str_eqb n nm_paragraph = false) l -> off_line st pre1 pre2 s bs li lv ->
   exists st', try_rules cfg rf cf rec (l ++ nm_paragraph :: rpost) st 0 1 = Ok st'
-    /\ off_line st' pre s bs lv /\ b_tokens st' = b_tokens st ++ para_tokens s lv /\ b_env st' = b_env st /\ b_line st' = 1.
+    /\ off_line st' pre1 pre2 s bs li lv /\ b_tokens st' = b_tokens st ++ para_tokens s lv /\ b_env st' = b_env st /\ b_line st' = 1.
 Proof.
   induction l as [|n l IH]; intros st Hl H; cbn [app try_rules].
   - unfold apply_rule.
@@ -222,36 +261,37 @@ Proof.
     split; [exact O'|]. split; [rewrite T', T1; reflexivity|]. split; [rewrite Ev', E1; reflexivity | exact L'].
 Qed.
 
-Lemma skip_empty0 st fuel : off_line st pre s bs lv -> skip_empty_lines (S fuel) st 0 = 0.
+Lemma skip_empty0 st fuel : off_line st pre1 pre2 s bs li lv -> skip_empty_lines (S fuel) st 0 = 0.
 Proof.
   intros H. cbn [skip_empty_lines]. pose proof H as H'. ol H'. rewrite HlM. change (negb (0 <? 1)) with false. cbv iota.
   rewrite (empty0 st H). reflexivity.
 Qed.
 
 (* the block loop on that line, at any depth: one paragraph, the cursor at line 1, everything else as found *)
-Theorem tokenize_off_line d st : off_line st pre s bs lv -> b_line st = 0 ->
+Theorem tokenize_off_line d st : off_line st pre1 pre2 s bs li lv -> b_line st = 0 ->
   exists st', tokenize cfg rf cf (S d) st 0 1 = Ok st'
-    /\ off_line st' pre s bs lv /\ b_tokens st' = b_tokens st ++ para_tokens s lv /\ b_env st' = b_env st /\ b_line st' = 1.
+    /\ off_line st' pre1 pre2 s bs li lv /\ b_tokens st' = b_tokens st ++ para_tokens s lv /\ b_env st' = b_env st /\ b_line st' = 1
+    /\ b_tight st' = true.
 Proof.
   intros O0 L0. pose proof O0 as O0'. ol O0'.
   cbn [tokenize]. change (Z.to_nat (1 - 0)) with 1%nat. cbn [tok_loop].
   change (negb (0 <? 1)) with false. cbv iota.
   rewrite HlM. change (Z.to_nat 1) with 1%nat. rewrite (skip_empty0 st 1 O0).
   change (1 <=? 0) with false. cbv iota.
-  assert (O1 : off_line (st_line st 0) pre s bs lv) by (unfold off_line, st_line; cbn; repeat split; assumption).
+  assert (O1 : off_line (st_line st 0) pre1 pre2 s bs li lv) by (unfold off_line, st_line; cbn; repeat split; assumption).
   rewrite (sc0 (st_line st 0) O1). cbn [bind].
   change (b_blkIndent (st_line st 0)) with (b_blkIndent st). change (b_level (st_line st 0)) with (b_level st).
-  rewrite HbI, Hlv. change (0 <? 0) with false. cbv iota.
+  rewrite HbI, Hlv. rewrite Z.ltb_irrefl. cbv iota.
   assert (E : (c_maxNesting cfg <=? lv) = false) by lia. rewrite E. rewrite HR.
   destruct (try_rules_line (tokenize cfg rf cf d) rpre (st_line st 0) Hpre O1) as (st2 & TR & O2 & T2 & E2 & L2).
   rewrite TR. cbn [bind].
   set (st3 := st2 <| b_tight := negb false |>).
-  assert (O3 : off_line st3 pre s bs lv) by (unfold off_line, st3; cbn; exact O2).
+  assert (O3 : off_line st3 pre1 pre2 s bs li lv) by (unfold off_line, st3; cbn; exact O2).
   change (b_line st3) with (b_line st2). rewrite L2.
   change (1 - 1 <? 1) with true. cbv iota. change (1 - 1) with 0. rewrite (empty0 st3 O3). cbn [bind orb].
   change (1 <? 1) with false. cbv iota. cbn [bind]. cbv iota.
   change (negb (1 <? 1)) with true. cbv iota.
-  exists st3. split; [reflexivity|]. split; [exact O3|]. split; [exact T2|]. split; [exact E2 | exact L2].
+  exists st3. split; [reflexivity|]. split; [exact O3|]. split; [exact T2|]. split; [exact E2|]. split; [exact L2|]. reflexivity.
 Qed.
 
 End OffLine.
@@ -343,25 +383,25 @@ Proof.
   (* the state handed to the nested block loop *)
   match goal with |- context [tokenize cfg rf cf (S d) ?s5 0 (0 + 1)] => set (st5 := s5) end.
   change (0 + 1) with 1.
-  assert (O5 : off_line st5 qpre s 2 1).
+  assert (O5 : off_line st5 qpre [] s 2 (-1) 1).
   { unfold off_line, st5, bpush, st_parent, qpre. cbn. rewrite ?Hlv, ?HeM, ?HbI, ?HlM, ?HlI, ?Hsrc, ?len_qline. cbn.
     change (1 <? 0) with false. change (0 <? 1) with true. cbv iota.
-    change (len [62; 32]) with 2.
+    change (len [62; 32]) with 2. change (len (@nil Z)) with 0. cbn [app].
     repeat split; try reflexivity; try (f_equal; lia); try (f_equal; [lia | f_equal; lia]); try (f_equal; f_equal; lia). }
   assert (L5 : b_line st5 = 0) by exact L0.
-  destruct (tokenize_off_line cfg rf cf qpre s 2 1 Hs rpre rpost HR Hpre Hnest d st5 O5 L5) as (st6 & TK & O6 & T6 & E6 & L6).
+  destruct (tokenize_off_line cfg rf cf qpre [] s 2 (-1) 1 Hs (fun x (H : In x []) => match H with end) rpre rpost HR Hpre Hnest d st5 O5 L5) as (st6 & TK & O6 & T6 & E6 & L6 & _).
   rewrite TK. cbn [bind].
   destruct O6 as (Hsrc6 & HbM6 & HeM6 & HtS6 & HsC6 & HbS6 & HbI6 & HlM6 & HlI6 & Hlv6).
   unfold restore_tables. cbn [o_b o_bs o_ts o_sc].
   cbn [b_bMarks b_tShift b_sCount b_bsCount bpush st_parent set b_tokens b_lineMax b_parentType b_blkIndent].
-  rewrite HbM6, HtS6, HsC6, HbS6. unfold qpre. change (len [62; 32]) with 2.
-  change (tb_set [2; 2 + len s + 1] 0 0) with (Ok [0; 2 + len s + 1] : res (list Z)).
+  rewrite HbM6, HtS6, HsC6, HbS6. unfold qpre. change (len [62; 32]) with 2. change (len (@nil Z)) with 0.
+  change (tb_set [2; 2 + 0 + len s + 1] 0 0) with (Ok [0; 2 + 0 + len s + 1] : res (list Z)).
   change (tb_set [0; 0] 0 0) with (Ok [0; 0] : res (list Z)). change (tb_set [2; 0] 0 0) with (Ok [0; 0] : res (list Z)).
   cbn [bind].
   eexists. split; [reflexivity|].
   change (-1 <? 0) with true. change (0 <? -1) with false. cbv iota.
   split; [|split; [|split]].
-  - unfold one_line. cbn. rewrite ?Hsrc6, ?HeM6, ?HlI6, ?Hlv6, ?HlM, ?HbI. unfold qpre. change (len [62; 32]) with 2. rewrite ?len_qline.
+  - unfold one_line. cbn. rewrite ?Hsrc6, ?HeM6, ?HlI6, ?Hlv6, ?HlM, ?HbI. unfold qpre. change (len [62; 32]) with 2. change (len (@nil Z)) with 0. rewrite ?len_qline. cbn [app].
     repeat split; try reflexivity; try (f_equal; lia); try (f_equal; [lia | f_equal; lia]); try (f_equal; f_equal; lia).
   - (* the tokens: the opener's map patched to (0, 1) *)
     cbn. rewrite T6, L6. unfold st5. cbn. rewrite Hlv6, Hlv.
@@ -543,4 +583,361 @@ Proof.
   split; [|reflexivity]. constructor; [|reflexivity].
   exists 102, [111; 111; 32; 42; 98; 42]. split; [reflexivity|]. split; [left; lia|].
   intros x H. cbn in H. repeat (destruct H as [<-|H]; [discriminate|]). contradiction.
+Qed.
+
+(* ---- the list rule on  "- " s LF  (C06, list item form, one-line paragraph documents) ---- *)
+Section Item.
+Context (cfg : bcfg) (rf cf : str -> str).
+Context (s : str) (Hs : line_ok s).
+
+Definition ipre : str := [45; 32].
+Definition iline : str := 45 :: 32 :: s.
+
+Lemma len_iline : len iline = len s + 2.
+Proof. unfold iline. rewrite !len_cons. lia. Qed.
+
+Lemma init_item env toks : one_line (state_init (iline ++ [10]) env toks) iline /\ b_tokens (state_init (iline ++ [10]) env toks) = toks
+  /\ b_env (state_init (iline ++ [10]) env toks) = env /\ b_line (state_init (iline ++ [10]) env toks) = 0.
+Proof.
+  destruct (s_facts s Hs) as (c0 & body & E & L & B & _). destruct (letter_not_space c0 L) as [_ Hn].
+  unfold state_init. unfold iline. change ((45 :: 32 :: s) ++ [10]) with (45 :: (32 :: s) ++ [10]).
+  assert (NB : forall x, In x (32 :: s) -> x <> 10).
+  { intros x [<-|I]; [discriminate|]. rewrite E in I. destruct I as [<-|I]; [exact Hn | exact (B x I)]. }
+  pose proof (scan_text_line 0 45 (32 :: s) (len (45 :: (32 :: s) ++ [10])) [] [] [] [] 0 0 eq_refl ltac:(discriminate) NB) as SC.
+  cbn [repeat_z app] in SC.
+  assert (HL : len (45 :: 32 :: s ++ [10]) = len s + 3) by (rewrite !len_cons, len_app; change (len [10]) with 1; lia).
+  change ((32 :: s) ++ [10]) with (32 :: s ++ [10]) in *.
+  rewrite SC by (rewrite HL, len_cons; lia).
+  cbv zeta. cbn [sc_bM sc_eM sc_tS sc_sC rev app map].
+  unfold one_line. cbn [b_src b_bMarks b_eMarks b_tShift b_sCount b_bsCount b_blkIndent b_lineMax b_listIndent b_level b_tokens b_env b_line].
+  rewrite HL, !len_cons. repeat split; try reflexivity; try (f_equal; try lia; f_equal; lia).
+Qed.
+
+(* the marker scans on this line *)
+Lemma skip_ordered_item st : one_line st iline -> skip_ordered st 0 = Ok (-1).
+Proof.
+  intros H. unfold skip_ordered. rewrite (ParaLine.ls0 iline st H), (ParaLine.em0 iline st H). cbn [bind].
+  match goal with |- (if ?c then _ else _) = _ => destruct c end; [reflexivity|].
+  destruct H as (Hsrc & _). rewrite Hsrc. change (py_idx (iline ++ [10]) 0) with (Ok 45 : res Z). cbn [bind].
+  change (negb (is_digit 45)) with true. reflexivity.
+Qed.
+
+Lemma skip_bullet_item st : one_line st iline -> skip_bullet st 0 = Ok 1.
+Proof.
+  intros H. unfold skip_bullet. rewrite (ParaLine.ls0 iline st H), (ParaLine.em0 iline st H). cbn [bind].
+  destruct H as (Hsrc & _). rewrite Hsrc. change (char_at (iline ++ [10]) 0) with (Some 45).
+  change (negb ((45 =? 42) || (45 =? 45) || (45 =? 43))) with false. cbv iota.
+  pose proof len_iline. destruct (s_facts s Hs) as (_ & _ & _ & _ & _ & Hl).
+  assert (E : (0 + 1 <? len iline) = true) by lia. rewrite E.
+  change (py_idx (iline ++ [10]) (0 + 1)) with (Ok 32 : res Z). cbn [bind]. reflexivity.
+Qed.
+
+Lemma list_blanks_item fuel : list_blanks (S (S fuel)) (iline ++ [10]) 1 (len iline) 1 0 = Ok (2, 2).
+Proof.
+  destruct (s_facts s Hs) as (c0 & body & E & L & B & Hl). destruct (letter_not_space c0 L) as [Hsp _].
+  pose proof len_iline as LI. cbn [list_blanks].
+  assert (E1 : negb (1 <? len iline) = false) by lia. rewrite E1.
+  change (py_idx (iline ++ [10]) 1) with (Ok 32 : res Z). cbn [bind]. change (32 =? 9) with false. change (32 =? 32) with true. cbv iota.
+  assert (E2 : negb (1 + 1 <? len iline) = false) by lia. rewrite E2.
+  unfold iline. rewrite E. change (py_idx ((45 :: 32 :: c0 :: body) ++ [10]) (1 + 1)) with (Ok c0 : res Z). cbn [bind].
+  assert (N9 : (c0 =? 9) = false) by (unfold letter in L; lia). assert (N32 : (c0 =? 32) = false) by (unfold letter in L; lia).
+  rewrite N9, N32. reflexivity.
+Qed.
+
+Definition ul_open_tok : token :=
+  map_tok 0 1 (set_markup (set_level (set_block (new_token [98; 117; 108; 108; 101; 116; 95; 108; 105; 115; 116; 95; 111; 112; 101; 110] [117; 108] 1) true) 0) [45]).
+Definition ul_close_tok : token :=
+  set_markup (set_level (set_block (new_token [98; 117; 108; 108; 101; 116; 95; 108; 105; 115; 116; 95; 99; 108; 111; 115; 101] [117; 108] (-1)) true) 0) [45].
+Definition li_open_tok : token :=
+  map_tok 0 1 (set_markup (set_level (set_block (new_token s_list_item_open s_li 1) true) 1) [45]).
+Definition li_close_tok : token :=
+  set_markup (set_level (set_block (new_token s_list_item_close s_li (-1)) true) 1) [45].
+(* the paragraph of a tight list: open and close are hidden *)
+Definition hide_para (l : list token) : list token :=
+  match l with [o; i; c] => [set_hidden o true; i; set_hidden c true] | _ => l end.
+Definition item_tokens : list token := ul_open_tok :: li_open_tok :: hide_para (para_tokens s 2) ++ [li_close_tok; ul_close_tok].
+
+Context (rpre rpost : list str).
+Context (HR : c_rules cfg = rpre ++ nm_paragraph :: rpost).
+Context (Hpre : Forall (fun n => str_eqb n nm_paragraph = false) rpre).
+Context (Hnest : 2 < c_maxNesting cfg).
+
+(* the line tables of the document, whatever the level and the tokens *)
+Definition tabs_line (st : bstate) : Prop :=
+  b_src st = iline ++ [10]
+  /\ b_bMarks st = [0; len iline + 1] /\ b_eMarks st = [len iline; len iline + 1]
+  /\ b_tShift st = [0; 0] /\ b_sCount st = [0; 0] /\ b_bsCount st = [0; 0]
+  /\ b_blkIndent st = 0 /\ b_lineMax st = 1 /\ b_listIndent st = -1.
+
+(* one turn of the item loop: the item, its paragraph from the nested block loop, the tables put back *)
+Lemma list_items_line f d term st2 : tabs_line st2 -> b_level st2 = 1 -> b_line st2 = 0 ->
+  exists st6, list_items cfg (S f) (tokenize cfg rf cf (S d)) term st2 false 45 0 0 1 1 0 true false = Ok (1, true, st6)
+    /\ tabs_line st6 /\ b_level st6 = 1
+    /\ b_tokens st6 = b_tokens st2 ++ li_open_tok :: para_tokens s 2 ++ [li_close_tok]
+    /\ b_env st6 = b_env st2 /\ b_line st6 = 1.
+Proof.
+  intros (Hsrc & HbM & HeM & HtS & HsC & HbS & HbI & HlM & HlI) Hlv L0.
+  cbn [list_items]. change (negb (0 <? 1)) with false. cbv iota.
+  unfold line_start.
+  rewrite HeM, HsC, HbM, HtS, HbS, Hsrc.
+  change (tb [len iline; len iline + 1] 0) with (Ok (len iline) : res Z).
+  change (tb [0; 0] 0) with (Ok 0 : res Z). change (tb [0; len iline + 1] 0) with (Ok 0 : res Z). cbn [bind].
+  change (0 + 0) with 0. change (0 + 1 - 0) with 1.
+  change (length (iline ++ [10])) with (S (S (length (s ++ [10])))).
+  rewrite list_blanks_item. cbn [bind].
+  pose proof len_iline as LI. destruct (s_facts s Hs) as (_ & _ & _ & _ & _ & Hl).
+  assert (EM : (len iline <=? 2) = false) by lia. rewrite !EM.
+  change (2 - 1) with 1. change (4 <? 1) with false. cbv iota. change (1 + 1) with 2.
+  cbn [bpush b_tShift b_sCount b_bMarks set]. rewrite HtS, HsC, HbM.
+  change (tb [0; 0] 0) with (Ok 0 : res Z). change (tb [0; len iline + 1] 0) with (Ok 0 : res Z). cbn [bind].
+  change (2 - 0) with 2. change (tb_set [0; 0] 0 2) with (Ok [2; 0] : res (list Z)). cbn [bind].
+  match goal with |- context [tokenize cfg rf cf (S d) ?sN 0 1] => set (stN := sN) end.
+  assert (ON : off_line stN [] ipre s 0 0 2).
+  { unfold off_line, stN, bpush, ipre. cbn. rewrite ?Hlv, ?HeM, ?HbM, ?HbS, ?HbI, ?HlM, ?HlI, ?Hsrc, ?len_iline. cbn.
+    change (1 <? 0) with false. change (0 <? 1) with true. cbv iota.
+    change (len [45; 32]) with 2. change (len (@nil Z)) with 0. cbn [app].
+    repeat split; try reflexivity; try (f_equal; lia); try (f_equal; [lia | f_equal; lia]); try (f_equal; f_equal; lia). }
+  assert (LN : b_line stN = 0) by exact L0.
+  assert (HP2 : forall x, In x ipre -> x <> 9) by (intros x [<-|[<-|[]]]; discriminate).
+  destruct (tokenize_off_line cfg rf cf [] ipre s 0 0 2 Hs HP2 rpre rpost HR Hpre Hnest d stN ON LN) as (st3 & TK & O3 & T3 & E3 & L3 & TT3).
+  rewrite TK. cbn [bind].
+  destruct O3 as (Hsrc3 & HbM3 & HeM3 & HtS3 & HsC3 & HbS3 & HbI3 & HlM3 & HlI3 & Hlv3).
+  rewrite L3. change (1 <? 1 - 0) with false. cbv iota. cbn [bind].
+  rewrite HtS3, HsC3. unfold ipre. change (len [45; 32]) with 2.
+  change (tb_set [2; 0] 0 0) with (Ok [0; 0] : res (list Z)). cbn [bind].
+  cbn [bpush b_line set]. rewrite L3. change (1 <=? 1) with true. cbv iota.
+  rewrite TT3. cbn [negb orb]. cbv iota.
+  eexists. split; [reflexivity|].
+  split; [|split; [|split; [|split]]].
+  - unfold tabs_line. cbn. rewrite ?Hsrc3, ?HbM3, ?HeM3, ?HbS3, ?HlI3, ?HlM3, ?HlI. unfold ipre. change (len [45; 32]) with 2. change (len (@nil Z)) with 0. rewrite ?len_iline. cbn [app].
+    repeat split; try reflexivity; try (f_equal; lia); try (f_equal; [lia | f_equal; lia]); try (f_equal; f_equal; lia).
+  - cbn. rewrite Hlv3. reflexivity.
+  - cbn. rewrite T3. unfold stN. cbn. rewrite Hlv3, Hlv.
+    change (1 <? 0) with false. change (0 <? 1) with true. change (-1 <? 0) with true. change (0 <? -1) with false. cbv iota.
+    unfold set_map_at. rewrite <- !app_assoc. cbn [app]. rewrite update_nth_tok_app.
+    unfold li_open_tok, li_close_tok. reflexivity.
+  - cbn. rewrite E3. reflexivity.
+  - cbn. exact L3.
+Qed.
+
+Lemma r_list_line d term st : one_line st iline -> b_line st = 0 -> b_tokens st = [] ->
+  exists st', r_list cfg (tokenize cfg rf cf (S d)) term st 0 1 false = Ok (true, st')
+    /\ one_line st' iline /\ b_tokens st' = item_tokens /\ b_env st' = b_env st /\ b_line st' = 1.
+Proof.
+  intros H L0 T0. pose proof H as H'. destruct H' as (Hsrc & HbM & HeM & HtS & HsC & HbS & HbI & HlM & HlI & Hlv).
+  unfold r_list.
+  rewrite (ParaLine.cb0 cfg iline st H), (ParaLine.sc0 iline st H). cbn [bind]. cbv iota.
+  rewrite HlI. change (0 <=? -1) with false. cbn [andb]. cbv iota.
+  rewrite (skip_ordered_item st H), (ParaLine.ls0 iline st H). cbn [bind]. change (0 <=? -1) with false. cbv iota.
+  rewrite (skip_bullet_item st H). cbn [bind]. change (0 <=? 1) with true. cbv iota. cbn [bind].
+  rewrite (ParaLine.em0 iline st H). cbn [bind andb]. cbv iota.
+  rewrite Hsrc. change (py_idx (iline ++ [10]) (1 - 1)) with (Ok 45 : res Z). cbn [bind]. cbv iota.
+  change (Z.to_nat (1 - 0)) with 1%nat.
+  match goal with |- context [list_items cfg 2 _ term ?s2 false 45 0 0 1 1 0 true false] => set (st2 := s2) end.
+  assert (TL : tabs_line st2) by (unfold tabs_line, st2, st_parent, bpush; cbn; repeat split; assumption).
+  assert (LV : b_level st2 = 1) by (unfold st2, st_parent, bpush; cbn; rewrite Hlv; reflexivity).
+  assert (L2 : b_line st2 = 0) by exact L0.
+  destruct (list_items_line 1 d term st2 TL LV L2) as (st6 & LI & TL6 & LV6 & T6 & E6 & L6).
+  rewrite LI. cbn [bind]. cbv iota.
+  destruct TL6 as (Hsrc6 & HbM6 & HeM6 & HtS6 & HsC6 & HbS6 & HbI6 & HlM6 & HlI6).
+  eexists. split; [reflexivity|].
+  split; [|split; [|split]].
+  - unfold one_line. cbn. rewrite LV6. change (-1 <? 0) with true. change (0 <? -1) with false. cbv iota.
+    repeat split; try assumption; reflexivity.
+  - cbn. rewrite T6. unfold st2. cbn. rewrite T0, LV6, Hlv. lazy. reflexivity.
+  - cbn. rewrite E6. reflexivity.
+  - reflexivity.
+Qed.
+
+(* ---- the top-level chain: nothing before the list rule claims the line ---- *)
+Context (bpre bpost : list str).
+Context (HB : c_rules cfg = bpre ++ nm_list :: bpost).
+Context (Hbpre : Forall (fun n => n = nm_table \/ n = nm_code \/ n = nm_fence \/ n = nm_blockquote \/ n = nm_hr) bpre).
+
+Lemma i_fence_fail st : one_line st iline -> r_fence cfg st 0 1 false = Ok (false, st).
+Proof.
+  intros H. unfold r_fence. rewrite (ParaLine.ls0 iline st H), (ParaLine.em0 iline st H), (ParaLine.cb0 cfg iline st H). cbn [bind]. cbv iota.
+  match goal with |- (if ?c then _ else _) = _ => destruct c end; [reflexivity|].
+  destruct H as (Hsrc & _). rewrite Hsrc. change (py_idx (iline ++ [10]) 0) with (Ok 45 : res Z). cbn [bind].
+  change (negb ((45 =? 126) || (45 =? 96))) with true. reflexivity.
+Qed.
+
+Lemma i_blockquote_fail rec term st : one_line st iline -> r_blockquote cfg rec term st 0 1 false = Ok (false, st).
+Proof.
+  intros H. unfold r_blockquote. rewrite (ParaLine.ls0 iline st H), (ParaLine.em0 iline st H), (ParaLine.cb0 cfg iline st H). cbn [bind]. cbv iota.
+  destruct H as (Hsrc & _). rewrite Hsrc. change (char_at (iline ++ [10]) 0) with (Some 45). reflexivity.
+Qed.
+
+(* "- " then a letter is not a thematic break: the scan stops at the letter *)
+Lemma i_hr_fail st : one_line st iline -> r_hr cfg st 0 1 false = Ok (false, st).
+Proof.
+  intros H. unfold r_hr. rewrite (ParaLine.ls0 iline st H), (ParaLine.em0 iline st H), (ParaLine.cb0 cfg iline st H). cbn [bind]. cbv iota.
+  destruct H as (Hsrc & _). rewrite Hsrc. change (char_at (iline ++ [10]) 0) with (Some 45).
+  change (negb ((45 =? 42) || (45 =? 45) || (45 =? 95))) with false. cbv iota.
+  destruct (s_facts s Hs) as (c0 & body & E & L & B & Hl). destruct (letter_not_space c0 L) as [Hsp _].
+  pose proof len_iline as LI.
+  change (length (iline ++ [10])) with (S (S (length (s ++ [10])))). cbn [hr_scan].
+  assert (E1 : negb (0 + 1 <? len iline) = false) by lia. rewrite E1.
+  change (py_idx (iline ++ [10]) (0 + 1)) with (Ok 32 : res Z). cbn [bind].
+  change (negb (32 =? 45) && negb (is_space 32)) with false. cbv iota.
+  assert (E2 : negb (0 + 1 + 1 <? len iline) = false) by lia. rewrite E2.
+  unfold iline at 1. rewrite E. change (py_idx ((45 :: 32 :: c0 :: body) ++ [10]) (0 + 1 + 1)) with (Ok c0 : res Z). cbn [bind].
+  assert (N45 : (c0 =? 45) = false) by (unfold letter in L; lia). rewrite N45, Hsp. reflexivity.
+Qed.
+
+Lemma i_before_fail rec term n st : n = nm_table \/ n = nm_code \/ n = nm_fence \/ n = nm_blockquote \/ n = nm_hr -> one_line st iline ->
+  apply_rule cfg rf cf rec term n st 0 1 false = Ok (false, st).
+Proof.
+  intros [->|[->|[->|[->| ->]]]] H; unfold apply_rule.
+  - change (str_eqb nm_table nm_table) with true. cbv iota. unfold r_table. change (1 <? 0 + 2) with true. reflexivity.
+  - change (str_eqb nm_code nm_table) with false. change (str_eqb nm_code nm_code) with true. cbv iota.
+    unfold r_code. rewrite (ParaLine.cb0 cfg iline st H). reflexivity.
+  - change (str_eqb nm_fence nm_table) with false. change (str_eqb nm_fence nm_code) with false. change (str_eqb nm_fence nm_fence) with true.
+    cbv iota. apply i_fence_fail, H.
+  - change (str_eqb nm_blockquote nm_table) with false. change (str_eqb nm_blockquote nm_code) with false.
+    change (str_eqb nm_blockquote nm_fence) with false. change (str_eqb nm_blockquote nm_blockquote) with true.
+    cbv iota. apply i_blockquote_fail, H.
+  - change (str_eqb nm_hr nm_table) with false. change (str_eqb nm_hr nm_code) with false.
+    change (str_eqb nm_hr nm_fence) with false. change (str_eqb nm_hr nm_blockquote) with false. change (str_eqb nm_hr nm_hr) with true.
+    cbv iota. apply i_hr_fail, H.
+Qed.
+
+Lemma try_rules_item d : forall l st,
+  Forall (fun n => n = nm_table \/ n = nm_code \/ n = nm_fence \/ n = nm_blockquote \/ n = nm_hr) l -> one_line st iline -> b_line st = 0 -> b_tokens st = [] ->
+  exists st', try_rules cfg rf cf (tokenize cfg rf cf (S d)) (l ++ nm_list :: bpost) st 0 1 = Ok st'
+    /\ one_line st' iline /\ b_tokens st' = item_tokens /\ b_env st' = b_env st /\ b_line st' = 1.
+Proof.
+  induction l as [|n l IH]; intros st Hl H L0 T0; cbn [app try_rules].
+  - unfold apply_rule.
+    change (str_eqb nm_list nm_table) with false. change (str_eqb nm_list nm_code) with false.
+    change (str_eqb nm_list nm_fence) with false. change (str_eqb nm_list nm_blockquote) with false.
+    change (str_eqb nm_list nm_hr) with false. change (str_eqb nm_list nm_list) with true. cbv iota.
+    destruct (r_list_line d (terminated cfg rf cf) st H L0 T0) as (st' & E & R). rewrite E. cbn [bind]. cbv iota.
+    exists st'. split; [reflexivity | exact R].
+  - inversion Hl as [|? ? Hn Hl']; subst.
+    rewrite (i_before_fail (tokenize cfg rf cf (S d)) (terminated cfg rf cf) n st Hn H). cbn [bind]. cbv iota.
+    exact (IH st Hl' H L0 T0).
+Qed.
+
+Lemma i_empty0 st : one_line st iline -> is_empty st 0 = Ok false.
+Proof.
+  intros H. unfold is_empty. rewrite (ParaLine.ls0 iline st H), (ParaLine.em0 iline st H). cbn [bind].
+  pose proof len_iline. destruct (s_facts s Hs) as (_ & _ & _ & _ & _ & Hl). assert (E : (len iline <=? 0) = false) by lia. rewrite E. reflexivity.
+Qed.
+
+Theorem block_parse_item env :
+  exists st, block_parse cfg rf cf (iline ++ [10]) env [] = Ok st /\ b_tokens st = item_tokens /\ b_env st = env.
+Proof.
+  unfold block_parse.
+  destruct (init_item env []) as (O0 & T0 & E0 & L0).
+  set (st := state_init (iline ++ [10]) env []) in *.
+  change (iline ++ [10]) with (45 :: 32 :: s ++ [10]) at 1. cbv zeta. cbv iota.
+  pose proof O0 as O0'. destruct O0' as (Hsrc & HbM & HeM & HtS & HsC & HbS & HbI & HlM & HlI & Hlv).
+  rewrite L0, HlM.
+  set (d := S (Z.to_nat (c_maxNesting cfg))). cbn [tokenize]. change (Z.to_nat (1 - 0)) with 1%nat. cbn [tok_loop].
+  change (negb (0 <? 1)) with false. cbv iota.
+  rewrite HlM. change (Z.to_nat 1) with 1%nat.
+  assert (SK : skip_empty_lines 2 st 0 = 0).
+  { cbn [skip_empty_lines]. rewrite HlM. change (negb (0 <? 1)) with false. cbv iota. rewrite (i_empty0 st O0). reflexivity. }
+  rewrite SK. change (1 <=? 0) with false. cbv iota.
+  assert (O1 : one_line (st_line st 0) iline) by (unfold one_line, st_line; cbn; repeat split; assumption).
+  rewrite (ParaLine.sc0 iline (st_line st 0) O1). cbn [bind].
+  change (b_blkIndent (st_line st 0)) with (b_blkIndent st). change (b_level (st_line st 0)) with (b_level st).
+  rewrite HbI, Hlv. change (0 <? 0) with false. cbv iota.
+  assert (E : (c_maxNesting cfg <=? 0) = false) by lia. rewrite E. rewrite HB.
+  destruct (try_rules_item (Z.to_nat (c_maxNesting cfg)) bpre (st_line st 0) Hbpre O1 eq_refl T0) as (st2 & TR & O2 & T2 & E2 & L2).
+  change (tokenize cfg rf cf (S (Z.to_nat (c_maxNesting cfg)))) with (tokenize cfg rf cf d) in TR.
+  rewrite TR. cbn [bind].
+  set (st3 := st2 <| b_tight := negb false |>).
+  assert (O3 : one_line st3 iline) by (unfold one_line, st3; cbn; exact O2).
+  change (b_line st3) with (b_line st2). rewrite L2.
+  change (1 - 1 <? 1) with true. cbv iota. change (1 - 1) with 0. rewrite (i_empty0 st3 O3). cbn [bind orb].
+  change (1 <? 1) with false. cbv iota. cbn [bind]. cbv iota.
+  change (negb (1 <? 1)) with true. cbv iota.
+  exists st3. split; [reflexivity|]. split.
+  - exact T2.
+  - change (b_env st3) with (b_env st2). rewrite E2. exact E0.
+Qed.
+
+End Item.
+
+(* ---- the whole pipeline on the one-item list ---- *)
+Section IPipe.
+Context (cfg : pcfg) (rf cf lt : str -> str).
+Context (s : str) (Hs : line_ok s).
+Context (H13 : mem_z CR s = false) (H0 : mem_z NUL s = false).
+Context (rpre rpost : list str).
+Context (HR : c_rules (p_block cfg) = rpre ++ nm_paragraph :: rpost).
+Context (Hpre : Forall (fun n => str_eqb n nm_paragraph = false) rpre).
+Context (bpre bpost : list str).
+Context (HB : c_rules (p_block cfg) = bpre ++ nm_list :: bpost).
+Context (Hbpre : Forall (fun n => n = nm_table \/ n = nm_code \/ n = nm_fence \/ n = nm_blockquote \/ n = nm_hr) bpre).
+Context (Hnest : 2 < c_maxNesting (p_block cfg)).
+Context (Hcore : p_core cfg = [n_normalize; n_block; n_inline; n_text_join]).
+
+(* two levels deeper *)
+Definition deeper2 (t : token) : token := set_level t (tlevel t + 2).
+
+Lemma mem_item_lf c : c <> 10 -> c <> 45 -> c <> 32 -> mem_z c s = false -> mem_z c (iline s ++ [10]) = false.
+Proof.
+  intros A B C H. unfold iline. cbn [app]. unfold mem_z in *. cbn [existsb].
+  assert (E1 : (c =? 45) = false) by lia. assert (E2 : (c =? 32) = false) by lia. rewrite E1, E2. cbn [orb].
+  rewrite existsb_app, H. cbn. assert (E : (c =? 10) = false) by lia. rewrite E. reflexivity.
+Qed.
+
+(* parse("- " s LF): a tight one-item list around the (hidden) paragraph around the inline token of s *)
+Theorem parse_item_line env :
+  parse cfg rf cf lt (iline s ++ [10]) env
+  = (do toks <- inline_parse (p_inline cfg) rf cf lt s env [];
+     Ok (ul_open_tok :: li_open_tok
+         :: hide_para (map deeper2 [p_open; set_children (p_inl s) (Some (join_children toks)); p_close])
+         ++ [li_close_tok; ul_close_tok], env)).
+Proof.
+  unfold parse. rewrite Hcore. cbn [core_process].
+  change (core_rule cfg rf cf lt n_normalize (mkC (iline s ++ [10]) env [] false))
+    with (Ok (mkC (normalize (iline s ++ [10])) env [] false) : res cstate).
+  cbn [bind]. rewrite (normalize_id (iline s ++ [10])) by (apply mem_item_lf; try discriminate; assumption).
+  change (core_rule cfg rf cf lt n_block (mkC (iline s ++ [10]) env [] false))
+    with (do b <- block_parse (p_block cfg) rf cf (iline s ++ [10]) env []; Ok (mkC (iline s ++ [10]) (b_env b) (b_tokens b) false)).
+  destruct (block_parse_item (p_block cfg) rf cf s Hs rpre rpost HR Hpre Hnest bpre bpost HB Hbpre env) as (st & BP & T & E).
+  rewrite BP. cbn [bind]. rewrite T, E.
+  change (core_rule cfg rf cf lt n_inline ?x) with (do ts <- inline_all cfg rf cf lt (c_tokens x) (c_env x); Ok (mkC (c_src x) (c_env x) ts (c_inlineMode x))).
+  cbn [c_tokens c_env c_src c_inlineMode]. unfold item_tokens, para_tokens, hide_para. cbn [app inline_all].
+  change (str_eqb (ttype ul_open_tok) s_inline) with false. change (str_eqb (ttype ul_close_tok) s_inline) with false.
+  change (str_eqb (ttype li_open_tok) s_inline) with false. change (str_eqb (ttype li_close_tok) s_inline) with false.
+  match goal with |- context [str_eqb (ttype (set_hidden (map_tok 0 1 ?t) true)) s_inline] => change (str_eqb (ttype (set_hidden (map_tok 0 1 t) true)) s_inline) with false end.
+  match goal with |- context [str_eqb (ttype (set_hidden (set_level ?t 2) true)) s_inline] => change (str_eqb (ttype (set_hidden (set_level t 2) true)) s_inline) with false end.
+  match goal with |- context [str_eqb (ttype (set_children ?t (Some []))) s_inline] => change (str_eqb (ttype (set_children t (Some []))) s_inline) with true end.
+  cbv iota. cbn [bind].
+  match goal with |- context [tcontent (set_children ?t (Some []))] => change (tcontent (set_children t (Some []))) with s end.
+  match goal with |- context [tchildren (set_children ?t (Some []))] => change (tchildren (set_children t (Some []))) with (Some (@nil token)) end.
+  cbv iota.
+  destruct (inline_parse (p_inline cfg) rf cf lt s env []) as [toks|e|]; cbn [bind]; try reflexivity.
+Qed.
+
+End IPipe.
+
+(* C06 (list items, rule 1) on one-line paragraphs: prefixing the line with the marker "- " nests its blocks two
+   levels deeper in a one-item tight list - same maps, same inline content, same children, the paragraph tokens hidden *)
+Theorem item_nests_paragraph :
+  forall cfg rf cf lt s, line_ok s -> mem_z 13 s = false -> mem_z 0 s = false ->
+  forall rpre rpost, c_rules (p_block cfg) = rpre ++ nm_paragraph :: rpost ->
+    Forall (fun n => str_eqb n nm_paragraph = false) rpre ->
+  forall bpre bpost, c_rules (p_block cfg) = bpre ++ nm_list :: bpost ->
+    Forall (fun n => n = nm_table \/ n = nm_code \/ n = nm_fence \/ n = nm_blockquote \/ n = nm_hr) bpre ->
+    2 < c_maxNesting (p_block cfg) ->
+    p_core cfg = [n_normalize; n_block; n_inline; n_text_join] ->
+  forall env,
+    parse cfg rf cf lt (s ++ [10]) env
+    = (do toks <- inline_parse (p_inline cfg) rf cf lt s env [];
+       Ok ([p_open; set_children (p_inl s) (Some (join_children toks)); p_close], env))
+    /\ parse cfg rf cf lt ([45; 32] ++ s ++ [10]) env
+    = (do toks <- inline_parse (p_inline cfg) rf cf lt s env [];
+       Ok (ul_open_tok :: li_open_tok
+           :: hide_para (map deeper2 [p_open; set_children (p_inl s) (Some (join_children toks)); p_close])
+           ++ [li_close_tok; ul_close_tok], env)).
+Proof.
+  intros cfg rf cf lt s Hs H13 H0 rpre rpost HR Hpre bpre bpost HB Hbpre Hn Hc env. split.
+  - exact (parse_one_line cfg rf cf lt s Hs H13 H0 rpre rpost HR Hpre ltac:(lia) Hc env).
+  - exact (parse_item_line cfg rf cf lt s Hs H13 H0 rpre rpost HR Hpre bpre bpost HB Hbpre Hn Hc env).
 Qed.
